@@ -44,7 +44,9 @@ impl Peekable {
     { unimplemented!() }
 }
 
-pub struct FindVisitor { pub pos: BytePos }
+// completion MatchState projected on its tags (the payload of Found is not inspected here)
+pub enum MatchState { NotFound, Empty, Found }
+pub struct FindVisitor { pub pos: BytePos, pub found: MatchState }
 
 // siblings as the parser produces them: well formed, in source order, not overlapping
 pub open spec fn ordered(s: Seq<Item>) -> bool {
@@ -56,4 +58,7 @@ impl FindVisitor {
     // the recursive traversal step (visit_expr) is NOT under contract; only its being reached with a node matters here
     #[verifier::external_body]
     pub fn visit_expr(&mut self, e: Item) ensures final(self).pos == old(self).pos { unimplemented!() }
+    // likewise the recursive step on patterns
+    #[verifier::external_body]
+    pub fn visit_pattern(&mut self, p: Item) ensures final(self).pos == old(self).pos { unimplemented!() }
 }
